@@ -45,4 +45,6 @@ func init() {
 	alias("C04", "R9", "C15", "R6", "the lock survives a crash only if replay finds the marker of the previous height: the end-height search may give up early only after a real, lower marker")
 	alias("C04", "R10", "C15", "R9", "the lock survives a crash only if replay starts from the right marker")
 	alias("C04", "R11", "C15", "R10", "the lock survives a second crash only if the first one's torn tail is repaired: replay must hand every corruption error back")
+	alias("C20", "R13", "C06", "R13", "block results are checked against LastResultsHash: the check is only as strong as the projection the hash covers")
+	alias("C14", "R12", "C18", "R9", "the state a snapshot-restored node starts from must let the state store produce the validator sets of the following heights")
 }
